@@ -9,6 +9,7 @@ Case lines (shared with harness/c04/c04.c):
   mset set_handler_catches <0|1>              the master's error_handler completes a catch()
   reconf MaxEvaluationCost <v>                the budget as read by init_config () (clamped)
   ev sizes set_limit <n>                      the budget as set by LPC set_eval_limit (n) (clamped)
+  ev sizes mapseq <op>,<op>,...               inserts and in-place `m += m2` on one mapping, each inside catch (MapBook.lean)
   shape <term>                                the abstract shape of the LPC program loaded as `p` (ignored by the harness)
   ev p main                                   one driver-started evaluation of the program
   sz <constructor> <args...>                  one size decision
@@ -19,6 +20,7 @@ shape terms:  K | W<n> | S | R<locals> | X | F<locals>(<t>) | C(<t>) | B<k>(<t>)
 import NV.Common.Proto
 import NV.C04.Model
 import NV.C04.Sizes
+import NV.C04.MapBook
 import NV.C04.Spec
 
 namespace NV.C04
@@ -204,6 +206,21 @@ def szCmd (l : Limits) (ctor : String) (a : List Int) : Option SzR :=
     some (andThen (str x) fun p => andThen (str y) fun q => andThen (sprintfAdd 0 p) fun real => andThen (sprintfAdd real q) fun r => sprintfFinish r l.maxString)
   | _, _ => none
 
+/-- `i<key><n|o>` / `a<from>:<n>:<new>` -/
+def parseMapOp (t : String) : Option MapOp :=
+  if t.startsWith "i" then
+    if t.endsWith "n" then some (.insert true) else if t.endsWith "o" then some (.insert false) else none
+  else if t.startsWith "a" then
+    match (t.drop 1).toString.splitOn ":" with
+    | [_, _, k] => k.toNat?.map MapOp.absorb
+    | _ => none
+  else none
+
+/-- the result string of sizes.c `mapseq` -/
+def mapSeqResult (limit : Int) (ops : List MapOp) : String :=
+  let (es, s) := mapRun limit ops { count := 0, nodes := 0 }
+  String.mk (es.map fun e => if e then 'e' else 'k') ++ s!":{s.count}/{s.nodes}"
+
 def setCfgInt (l : Limits) (idx : Nat) (v : Int) : Limits :=
   if idx = cfgEvalCost then { l with cost := v }
   else if idx = cfgMaxArray then { l with maxArray := v }
@@ -248,6 +265,11 @@ def parseLine (mode : Bool) (p : Parsed) (line : String) : Parsed :=
     match v.toInt? with
     | some v => { p with lim := { p.lim with cost := clampCost v } }
     | none => { p with bad := line :: p.bad }
+  | ["ev", "sizes", "mapseq", ops] =>
+    let parsed := (ops.splitOn ",").map parseMapOp
+    if parsed.all Option.isSome then
+      { p with out := if mode then ("r ret \"" ++ mapSeqResult p.lim.maxMapping (parsed.filterMap id) ++ "\"") :: p.out else p.out }
+    else { p with bad := line :: p.bad }
   | ["ev", "sizes", "set_limit", v] =>
     -- set_eval_limit (n), n other than 0 / 1 / -1: MaxEvaluationCost = (int) n, clamped to at least 1; the LPC
     -- function returns the new budget
